@@ -228,7 +228,8 @@ Lemma gen_container_S f (e : el) (ks : list node) (c : pctx) :
           if (String.eqb (ename N e) "defs" || String.eqb (ename N e) "symbol")%bool then (None, c2)
           else match b with Some _ => (b, update_element c2 (with_cbb N ne b)) | None => (b, c2) end in
         let c4 := match b with Some _ => set_prev c3 (with_cbb N ne b) | None => c3 end in
-        (Ok (events, b), c4)
+        
+        (Ok (events, if mem_str (ename N e) container_unrendered then None else b), c4)
   end).
 Proof. reflexivity. Qed.
 
@@ -611,7 +612,7 @@ Proof.
                    let '(b0, c3) := if (String.eqb (ename N e) "defs" || String.eqb (ename N e) "symbol")%bool then (None, c2)
                                     else match b with Some _ => (b, update_element c2 (with_cbb N ne0 b)) | None => (b, c2) end in
                    let c4 := match b0 with Some _ => set_prev c3 (with_cbb N ne0 b0) | None => c3 end in
-                   (Ok (events, b0), c4))))).
+                   (Ok (events, if mem_str (ename N e) container_unrendered then None else b0), c4))))).
       { destruct (_ && _)%bool; [apply presd_ret|].
         apply (presd_rbind (eval_attributes e)); [apply pres_presd, eval_attributes_inv|].
         intros ne c1 r1 c1' Hn1.
